@@ -2159,11 +2159,39 @@ func ruleAssertedErrorNil(r *Run) {
 func ruleRequestContextSent(r *Run) {
 	const rule = "R13i.ctx"
 	n := 0
+	isWithCtx := func(ins ssa.Instruction) *ssa.Call {
+		c, ok := ins.(*ssa.Call)
+		if ok && calleeName(&c.Call) == "(*net/http.Request).WithContext" {
+			return c
+		}
+		return nil
+	}
+	// attaches: a function of the module that gives a request its context and hands it back —
+	// a WithContext call whose result reaches one of its returns
+	attaches := map[*ssa.Function]bool{}
 	for _, fn := range r.P.Funcs {
 		if !inModule(fn) {
 			continue
 		}
-		var withCtx []*ssa.Call
+		for _, ins := range allInstrs(fn) {
+			w := isWithCtx(ins)
+			if w == nil {
+				continue
+			}
+			for _, ret := range returnsOf(fn) {
+				for _, rv := range retVals(ret) {
+					if influencers(rv)[w] {
+						attaches[fn] = true
+					}
+				}
+			}
+		}
+	}
+	for _, fn := range r.P.Funcs {
+		if !inModule(fn) {
+			continue
+		}
+		var sources []ssa.Value // what carries the context in this function
 		var sends []ssa.CallInstruction
 		for _, ins := range allInstrs(fn) {
 			ci, ok := ins.(ssa.CallInstruction)
@@ -2171,21 +2199,25 @@ func ruleRequestContextSent(r *Run) {
 				continue
 			}
 			name := calleeName(ci.Common())
-			if c, isCall := ins.(*ssa.Call); isCall && name == "(*net/http.Request).WithContext" {
-				withCtx = append(withCtx, c)
+			if w := isWithCtx(ins); w != nil {
+				sources = append(sources, w)
+			}
+			if c, isCall := ins.(*ssa.Call); isCall {
+				if sc := c.Call.StaticCallee(); sc != nil && attaches[sc] {
+					sources = append(sources, c)
+				}
 			}
 			if familyOf(name) == "(*net/http.Client).Do" || name == "(*net/http.Client).Do" {
 				sends = append(sends, ci)
 			}
 		}
-		if len(withCtx) == 0 || len(sends) == 0 {
+		if len(sources) == 0 || len(sends) == 0 {
 			continue
 		}
 		for _, snd := range sends {
 			n++
-			args := snd.Common().Args
 			var req ssa.Value
-			for _, a := range args {
+			for _, a := range snd.Common().Args {
 				if strings.HasSuffix(namedOf(derefType(a.Type())), "net/http.Request") {
 					req = a
 				}
@@ -2193,14 +2225,14 @@ func ruleRequestContextSent(r *Run) {
 			good := false
 			if req != nil {
 				infl := influencers(req)
-				for _, w := range withCtx {
+				for _, w := range sources {
 					if infl[w] {
 						good = true
 					}
 				}
 			}
 			r.Check(good, rule, fnName(fn), "request sent carries the context", r.P.pos(snd.Pos()),
-				"the request handed to the HTTP client is computed from the result of WithContext",
+				"the request handed to the HTTP client is computed from the result of WithContext (made here or by the helper that prepares the request)",
 				"the function attaches a context to a copy of the request (WithContext returns a copy) but hands the HTTP client a request that is not computed from that copy: the sub-request goes out with the background context, is not aborted when the client goes away or its deadline passes, and a service that has gone silent holds the handler goroutine for ever")
 		}
 	}
